@@ -116,6 +116,30 @@ for u in C05.UNITS:
     if u.name in ('ThermochemRawData.get_HoRT', 'ThermochemRawData.get_SoR', 'ThermochemRawData.get_CpoR', 'ThermochemRawData.__init__'):
         u.world_factory = C05.world
         UNITS.append(u)
+def replay_own_range(model, state, ob):
+    """an estimate whose declared range was narrowed with set_range, evaluated outside it"""
+    import warnings
+    import pgradd.ThermoChem  # noqa
+    from . import real
+    lib = real.load('BensonGA', fresh=True)
+    res = {}
+    with real.quiet(), warnings.catch_warnings(record=True) as w:
+        warnings.simplefilter('always')
+        est = lib.Estimate(lib.GetDescriptors('C1CO1'), 'thermochem')
+        est.set_range((298., 500.))
+        for m in ('get_CpoR', 'get_HoRT', 'get_SoR'):
+            res[m] = real.outcome(getattr(est, m), 800.)
+    silent = [m for m, r in res.items() if r[0] == 'ok'] if not w else []
+    return {'failed': bool(silent), 'input': "est = BensonGA.Estimate(descriptors of 'C1CO1'); est.set_range((298, 500)); est.get_X(800)", 'observed': {k: str(v) for k, v in res.items()},
+            'expected': 'an error or a warning: 800 K is outside the range the estimate declares',
+            'script': "import pgradd.ThermoChem\nfrom pgradd.GroupAdd.Library import GroupLibrary\nlib = GroupLibrary.Load('BensonGA')\ne = lib.Estimate(lib.GetDescriptors('C1CO1'), 'thermochem')\ne.set_range((298., 500.))\nprint(e.get_range(), e.get_HoRT(800.))\n"}
+
+
+replay_own_range.model_free = True
+for _X, _m in (('CpoR', 'get_CpoR'), ('HoRT', 'get_HoRT'), ('SoR', 'get_SoR')):
+    _u = Unit('ThermochemGroupAdditive.%s[own declared range]' % _m, (C01.GD, 'ThermochemGroupAdditive.' + _m), C01.fold_unit(_X, _m, own_range=True), replay_own_range)
+    _u.world_factory = C01.world
+    UNITS.append(_u)
 for u in C01.UNITS:
     if u.name == 'ThermochemGroupAdditive.__init__':
         u.world_factory = C01.world
